@@ -95,3 +95,19 @@ def register(claim, na):
           "The C08 workloads: at the quiescent end of every execution no hang (a fitting waiting job was launched), no token file left, available == "
           "total in every live process, no observer/watcher thread died. Scheduler death while tokens are held is explored by C11's kill enumeration.",
           W_NOTE, "DESIGN.md 3/C09")
+
+    claim("C11", "W", "fault_enumeration",
+          "exhaustive kill-point enumeration: the scheduler process of the real code is killed before every scheduling step (file/lock/spawn granularity) and the experiment re-run",
+          "Six scripts (single, chain, fork, with and without tokens): the first run is killed abruptly at every one of its scheduling points under "
+          "FIFO, JOBS-FIRST and LIFO default policies (so the restart happens at once, after the orphans finished, or before them), the job processes "
+          "live on, the script is run again in a fresh simulated process and its continuation explored with up to one deviation; over both runs every "
+          "successful body must have executed exactly once and never twice at a time, the second run must end all DONE without hang/exception, no "
+          "token file may remain and available == total.",
+          W_NOTE + " SIGINT (handler -> experiment.stop()) is not explored.", "DESIGN.md 3/C11")
+    claim("C16", "W", "model_checking",
+          "exhaustive enumeration of run histories of one experiment name (plus schedules within the deviation bound and kill points) on the real scheduler, index read after every run",
+          "All 512 three-run histories over subsets of two jobs x {normal end, exception}, all two-run histories with the exception raised with or "
+          "without waiting under <=1 deviation from three policies, a completed run followed by a run killed at every scheduling point and re-run, two "
+          "processes entering the same experiment: after every run jobs/ must equal the run's plan with resolving links and no jobs.bak (normal end), "
+          "or jobs + jobs.bak must still contain the last completed plan (abort/kill), and the real `orphans` command must list none of them.",
+          W_NOTE, "DESIGN.md 3/C16")
